@@ -30,7 +30,7 @@ RULE = (
     "earlier in the same process; distinct = distinct (text digest, dialect, buggify config, history-prefix digest)."
 )
 TIERS = {
-    "quick": {"runs": 80, "budget_s": 90, "min_runs": 4, "run_timeout_s": 420},
+    "quick": {"runs": 80, "budget_s": 75, "min_runs": 4, "run_timeout_s": 420},
     "thorough": {"runs": 5000, "budget_s": 800, "min_runs": 40, "run_timeout_s": 900},
 }
 COMPONENTS_REAL = [
